@@ -93,7 +93,7 @@ def fails_same(ctx, cc, cls):
 def real_plan(ctx):
     quick = ctx.tier == 'quick'
     plan = []
-    for fl, n in (('plain', 14), ('blend', 16), ('edge', 10), ('reject', 16), ('thin', 4), ('many', 1)):
+    for fl, n in (('plain', 14), ('blend', 16), ('edge', 10), ('reject', 16), ('thin', 4), ('nonsq', 14), ('many', 1)):
         plan += [fl] * (n if quick else n * 8)
     return plan
 
@@ -108,7 +108,8 @@ def run(ctx, model_ok=True):
                 'input flags, stages 1-3, regroup on/off, shuffled rows; distinct = distinct (image, catalogue, stage, regroup), '
                 'non-trivial = at least one island reaches the optimiser. (2) real runs: noise-free images of 1-30 source catalogues '
                 '(isolated, blends 0.9-1.8 FWHM apart, edge, off-image / unprojectable / NaN-pixel sources, minor axis below the shape '
-                'limit, >20 islands), list / csv / fits / vot catalogues with and without psf columns, stages 1-3, regroup on/off, ratio '
+                'limit, >20 islands, non-square (|CDELT2| = 2|CDELT1| and the reverse) and rotated-PC pixels with mildly elongated sources '
+                'along both pixel axes and obliquely), list / csv / fits / vot catalogues with and without psf columns, stages 1-3, regroup on/off, ratio '
                 'None/1, docov on/off; distinct = distinct case, non-trivial = at least one accepted source.')
     # ---------------- 1 exact correspondence
     n_exact = 160 if quick else 1600
@@ -234,9 +235,9 @@ def run(ctx, model_ok=True):
 def check_renderer(ctx, rng):
     from AegeanTools import AeRes
     from AegeanTools.wcs_helpers import WCSHelper
-    for _ in range(3):
-        c = pc.gen_real_case(rng, 'blend')
-        wh = WCSHelper.from_header(pc.real_header((c['rows'], c['cols'])))
+    for fl in ('blend', 'blend', 'nonsq', 'nonsq'):
+        c = pc.gen_real_case(rng, fl)
+        wh = WCSHelper.from_header(pc.real_header((c['rows'], c['cols']), c.get('hdr')))
         acc, blank = pc.expected_accept(c, wh)
         img = pc.render(c, wh, acc, blank)
         srcs = [pc.to_source(d) for d in c['cat'] if acc[d['uuid']]]
@@ -284,7 +285,8 @@ def replay(ctx, obj):
             return 1
     pr, st = pc.check_real(fi['case'], ctx.work, 'p')
     print('catalogue:', json.dumps([{k: d[k] for k in ("uuid", "ra", "dec", "peak_flux", "a", "b", "pa")} for d in fi['case']['cat']]))
-    print('options:', fi['case']['opts'], 'image', fi['case']['rows'], 'x', fi['case']['cols'], 'blank boxes', fi['case']['nan'])
+    print('options:', fi['case']['opts'], 'image', fi['case']['rows'], 'x', fi['case']['cols'], 'header', fi['case'].get('hdr') or 'square 10 arcsec pixels',
+          'blank boxes', fi['case']['nan'])
     if pr:
         for p in pr[:8]:
             print('implementation:', p)
